@@ -4,7 +4,7 @@ from __future__ import annotations
 import ast
 
 from .common import site_of
-from .flow import (facts_imply_nonempty, helpers_of, both_answers, Oblig, calls, events, deps_of, arg_deps, SELF, P, facts_on_path, has_fact, check_escapes)
+from .flow import (own, facts_imply_nonempty, helpers_of, both_answers, Oblig, calls, events, deps_of, arg_deps, SELF, P, facts_on_path, has_fact, check_escapes)
 
 LL = "pyformlang.cfg.llone_parser.LLOneParser"
 EXPLANATION = (
@@ -36,13 +36,13 @@ def run(eng, rep, tier):
     summ = interp.run_entry(fi, LL)
 
     # -------------------------------------------------------------- C14.1 exceptions of the parser
-    own_raises = [ev for ev in summ.events if ev.kind == "raise" and not ev.caught]
+    own_raises = [ev for ev in own(summ) if ev.kind == "raise" and not ev.caught]
     bad = [ev for ev in own_raises if any(x.rsplit(".", 1)[-1] != "NotParsableException" for x in ev.exc)]
     ob.decide("R6", "C14.1", fi, "explicit-raises", bool(own_raises) and not bad,
               "the parser itself raises only NotParsableException",
               "the parser raises %s" % (bad[0].exc if bad else "nothing at all for non-members"), summ,
               site=(bad[0].site.to_json() if bad else site_of(prog, fi, fi.node)))
-    missing = [ev for ev in summ.events if ev.kind == "attr" and ev.note.startswith("missing-on:")]
+    missing = [ev for ev in own(summ) if ev.kind == "attr" and ev.note.startswith("missing-on:")]
     # a sentinel comparison whose satisfied branch leaves the function discharges the site, provided every bare string
     # ever put on that stack is that sentinel
     sentinels = {c.value for c in ast.walk(fi.node) if isinstance(c, ast.Constant) and isinstance(c.value, str)
@@ -64,10 +64,10 @@ def run(eng, rep, tier):
         rep.holds("R6", "C14.1", fi.qname, "attribute-on-sentinel", "no attribute is read from a value that can be a "
                   "bare string sentinel")
     # the look-ahead: `<seq>[-1]` on a sequence that the same loop pops (whatever the local is called)
-    looks = [ev for ev in summ.events if ev.kind == "subscript" and ev.args and ev.args[0].has_const() and
+    looks = [ev for ev in own(summ) if ev.kind == "subscript" and ev.args and ev.args[0].has_const() and
              ev.args[0].const == -1]
     seqs = {ast.unparse(ev.node.value) for ev in looks}
-    pops = [ev for ev in summ.events if ev.kind == "write" and ev.wkind == "mutate:pop" and isinstance(ev.node, ast.Call)
+    pops = [ev for ev in own(summ) if ev.kind == "write" and ev.wkind == "mutate:pop" and isinstance(ev.node, ast.Call)
             and isinstance(ev.node.func, ast.Attribute) and ast.unparse(ev.node.func.value) in seqs]
     popped = {ast.unparse(ev.node.func.value) for ev in pops}
     looks = [ev for ev in looks if ast.unparse(ev.node.value) in popped]
@@ -80,8 +80,8 @@ def run(eng, rep, tier):
               "`word[-1]` is read in the loop in which `word.pop()` runs, with no emptiness guard: once the end "
               "sentinel has been consumed (a grammar symbol spelled `$`) it raises IndexError", summ,
               site=(unguarded[0].site.to_json() if unguarded else None))
-    gets = [ev for ev in summ.events if ev.kind == "bcall" and ev.callee == "get"]
-    tbl_sub = [ev for ev in summ.events if ev.kind == "subscript" and ev.recv is not None and
+    gets = [ev for ev in own(summ) if ev.kind == "bcall" and ev.callee == "get"]
+    tbl_sub = [ev for ev in own(summ) if ev.kind == "subscript" and ev.recv is not None and
                "parsing_table" in ast.unparse(ev.node.value)]
     ob.decide("R6", "C14.1", fi, "table-lookups-use-get", len(gets) >= 2 and not tbl_sub,
               "table lookups use .get with defaults", "the parsing table is subscripted with input-derived keys", summ,
@@ -148,7 +148,7 @@ def run(eng, rep, tier):
     fp = prog.method("LLOneParser", "is_llone_parsable")
     sp = interp.run_entry(fp, LL)
     consts = {ev.value.const for ev in sp.events if ev.kind == "ret" and ev.value is not None and ev.value.has_const()}
-    lens = [ev for ev in sp.events if ev.kind == "bcall" and ev.callee == "len"]
+    lens = [ev for ev in own(sp) if ev.kind == "bcall" and ev.callee == "len"]
     ob.decide("R1", "C14.3", fp, "verdict-reads-every-cell", both_answers(sp) and bool(lens),
               "the LL(1) verdict is False exactly when some cell holds more than one production",
               "is_llone_parsable does not inspect the length of the cells", sp, site=site_of(prog, fp, fp.node))
